@@ -513,6 +513,20 @@ def r13_metric_of_the_feature_positions(ctx):
         ctx.unknown("C09.R13", ("leaspy.models.shared_speed_logistic", "SharedSpeedLogisticModel.get_variables_specs"), None, "no configuration with `deltas` and `metric` found", construct="metric depends on the deltas")
 
 
+def r15_components_in_the_order_of_the_table(ctx):
+    """The closed form at the *supplied* parameters: the components of a vector-valued parameter (`sources_0 .. sources_k`) are stored in the
+    order of their integer suffix - `from_dataframe` never sorts the component columns by name (lexicographic order puts `sources_10` before
+    `sources_2`)."""
+    ctx.rule("C09.R15", "from_dataframe does not re-order the component columns of a vector-valued parameter by name", 1)
+    f = ctx.ix.func("leaspy.io.outputs.individual_parameters", "IndividualParameters.from_dataframe", "C09.R15")
+    ctx.analysed(f)
+    bad = [c for c in ast.walk(f.node) if isinstance(c, ast.Call) and ((isinstance(c.func, ast.Attribute) and c.func.attr in ("sort", "sort_index", "sort_values", "reindex", "reverse"))
+                                                                        or U(c.func) in ("sorted", "reversed")) and not any(k.arg == "key" and "int(" in U(k.value) for k in c.keywords)]
+    ctx.check(not bad, "C09.R15", f, bad[0] if bad else f.node, "component columns kept in the order of the table (or sorted by their integer suffix)",
+              f"`{U(bad[0])[:60] if bad else ''}` re-orders columns by name: with more than ten components `sources_10` comes before `sources_2`, the stored vector is a permutation of the supplied one "
+              "and the trajectory is computed from the wrong sources", construct="component order")
+
+
 def rules(ctx):
     # the trajectory is the closed form at the parameters the caller supplied: the container they are put into keeps them unchanged (same rule as C16.R2b)
     from .c16 import r2b_values_stored_as_given
@@ -529,6 +543,7 @@ def rules(ctx):
     r8_conditioning(ctx)
     r12_space_shift_enters_the_trajectory(ctx)
     r13_metric_of_the_feature_positions(ctx)
+    r15_components_in_the_order_of_the_table(ctx)
     # the closed form at the *loaded* parameters: loading re-shapes a value, it never re-arranges its entries (same rule as C12.R4b)
     from .c12 import r4b_val_to_tensor
     r4b_val_to_tensor(ctx, rid="C09.R14")
